@@ -290,19 +290,21 @@ _MASS_PAIRS = {
 }
 
 
-def shards(tier):
-    n = 1 if tier == "quick" else 10
+def shards(tier, seed=1):
+    from vlib.pbt import rot
+
+    q = tier == "quick"
+    n = 1 if q else 10
     out = []
     for kinds in (["DP0", "P1"], ["RWG", "SNC"]):
-        for mk in ("closed", "open"):
-            out.append({"check": "pointwise", "kinds": kinds, "meshkind": mk, "examples": 25 * n, "budget_s": 120 * n})
+        for mk in (rot(["closed", "open"], seed, 1) if q else ["closed", "open"]):
+            out.append({"check": "pointwise", "kinds": kinds, "meshkind": mk, "examples": 25 * n, "budget_s": 200 * n})
     for k in ("DUAL1", "DUAL0"):
-        for mk in ("closed", "open"):
-            out.append({"check": "dual_nodal", "kinds": [k], "meshkind": mk, "examples": 25 * n, "budget_s": 120 * n})
+        for mk in (rot(["open", "closed"], seed, 1) if q else ["closed", "open"]):
+            out.append({"check": "dual_nodal", "kinds": [k], "meshkind": mk, "examples": 20 * n, "budget_s": 200 * n})
     for grp in ("scalar", "vector"):
-        for mk in ("closed", "open"):
-            for rep in range(2):
-                out.append({"check": "mass", "group": grp, "meshkind": mk, "examples": 14 * n, "budget_s": 150 * n, "rep": rep})
+        for mk in (rot(["closed", "open"], seed + (grp == "vector"), 1) if q else ["closed", "open"]):
+            out.append({"check": "mass", "group": grp, "meshkind": mk, "examples": 18 * n, "budget_s": 260 * n})
     return out
 
 
